@@ -24,10 +24,33 @@ assert os.path.realpath(os.path.dirname(flowdyn.__file__)) == os.path.realpath(o
     "flowdyn imported from %s, not from %s" % (flowdyn.__file__, core.REPO)
 
 
+class Hang(Exception):
+    pass
+
+
+def _alarm(signum, frame):
+    raise Hang("no answer within %d s" % HANG_LIMIT)
+
+
+HANG_LIMIT = int(os.environ.get('FLOWDYN_VERIF_HANG_LIMIT', '120'))
+HANGS = []      # descriptions of calls that had to be interrupted (reported by the check as infrastructure notes)
+
+
 def guarded(fn, *a, **k):
-    """call implementation code; an exception is a result, not a harness crash"""
+    """call implementation code; an exception is a result, not a harness crash.  A call that does not return within
+    HANG_LIMIT seconds (a time loop whose time became NaN never reaches its end time) is interrupted and answers
+    (False, 'Hang: ...')."""
+    import signal
+    old = signal.signal(signal.SIGALRM, _alarm)
+    signal.setitimer(signal.ITIMER_REAL, HANG_LIMIT)
     try:
         with contextlib.redirect_stdout(io.StringIO()):
             return True, fn(*a, **k)
+    except Hang as e:
+        HANGS.append(str(e))
+        return False, "Hang: %s" % e
     except Exception as e:  # noqa
         return False, "%s: %s" % (type(e).__name__, str(e)[:300])
+    finally:
+        signal.setitimer(signal.ITIMER_REAL, 0)
+        signal.signal(signal.SIGALRM, old)
